@@ -13,7 +13,7 @@ def be_l1_ob(be, k, m, hd, sets, w=1, band=False, singular=False, split=None, ta
     sw = max(4, max((len(s) for s in sets), default=0) + 1)
     defs = dict(BE=be, K=k, M=m, HD=hd, W=w, SW=sw, SETS=fmt_sets(sets, sw))
     if split is None:
-        split = (be != XOR and k > 3)
+        split = (be != XOR and (k >= 3 or (k >= 2 and m >= 2)))
     if split and not band and not singular: defs["SPLIT"] = None
     if band: defs["BAND"] = None
     if singular: defs["FORCE_SINGULAR"] = None
